@@ -229,7 +229,7 @@ def typed_arguments(prog, rep):
     rep.rule("ARG-TYPED", "every built-in is wrapped by the typecheck decorator, and each of its required parameters is either one the registry wrapper injects (annotated Datastore / TNamespace) or annotated with exactly one of the types the typecheck wrapper verifies (read from its `annotation in [...]` test): any other annotation makes the wrapper skip the argument, and a value of the wrong type reaches the transform, where AttributeError / TypeError escape")
     tg = prog.func("q2_typecheck.g")
     checked = None
-    for n in walk_with_nested_exprs(tg.node):
+    for n in ast.walk(prog.func("q2_typecheck").node):  # the decorator and its wrapper: the test may be made at decoration time
         if isinstance(n, ast.Compare) and len(n.ops) == 1 and isinstance(n.ops[0], (ast.In, ast.NotIn)) and norm(n.left).endswith(".annotation"):
             coll = n.comparators[0]
             if isinstance(coll, ast.Name):
@@ -396,7 +396,12 @@ def termination(prog, rep):
             for st in ast.walk(lp):
                 if isinstance(st, ast.Assign) and len(st.targets) == 1 and norm(st.targets[0]) == s:
                     v = st.value
-                    fine = (isinstance(v, ast.Call) and norm(v.func) == f"{s}.strip" and not v.args) or (isinstance(v, ast.Subscript) and norm(v.value) == s and isinstance(v.slice, ast.Slice) and v.slice.upper is None and v.slice.step is None)
+                    fine = (isinstance(v, ast.Call) and norm(v.func) in (f"{s}.strip", f"{s}.lstrip", f"{s}.rstrip", f"{s}.removeprefix", f"{s}.removesuffix")) or (isinstance(v, ast.Subscript) and norm(v.value) == s and isinstance(v.slice, ast.Slice) and v.slice.upper is None and v.slice.step is None)
+                    if not fine and isinstance(v, ast.Name):
+                        # a part of s.partition(sep) / s.rpartition(sep), unpacked in the loop body: a substring of s
+                        for d in ast.walk(lp):
+                            if isinstance(d, ast.Assign) and len(d.targets) == 1 and isinstance(d.targets[0], ast.Tuple) and len(d.targets[0].elts) == 3 and any(norm(t) == v.id for t in d.targets[0].elts) and isinstance(d.value, ast.Call) and norm(d.value.func) in (f"{s}.partition", f"{s}.rpartition"):
+                                fine = len([x for x in ast.walk(lp) if isinstance(x, ast.Name) and x.id == v.id and isinstance(x.ctx, ast.Store)]) == 1
                     if not fine:
                         others.append(norm(st))
             skips = [x for x in lp.body if isinstance(x, ast.Continue)] + [x for x in ast.walk(lp) if isinstance(x, ast.Continue)]
